@@ -338,3 +338,116 @@ func Prefixes() []dns.APLPrefix {
 		{Negation: true, Network: net.IPNet{IP: net.IP{0x20, 0x01, 0x0d, 0xb8, 0, 0, 0, 0, 0, 0, 0, 0, 0, 0, 0, 0}, Mask: net.CIDRMask(32, 128)}},
 	}
 }
+
+// ---------------------------------------------------------------------------
+// variants of the fully populated instance
+
+func sliceCells(rr dns.RR) []Cell {
+	_, cells := WalkCells(rr)
+	var out []Cell
+	for _, c := range cells {
+		if c.Kind == reflect.Slice && !strings.HasSuffix(c.Path, "[append]") && c.V.Len() > 0 {
+			out = append(out, c)
+		}
+	}
+	return out
+}
+
+// LowerOwner: the owner in lower case (names in the RDATA keep their mixed case).
+func LowerOwner(rr dns.RR) { rr.Header().Name = strings.ToLower(rr.Header().Name) }
+
+// Unsort reverses every list of the record (type bitmaps, texts, options, SVCB parameters,
+// APL prefixes, ...; octet strings are values, not lists, and keep their order).
+func Unsort(rr dns.RR) (changed bool) {
+	for _, c := range sliceCells(rr) {
+		v := c.V
+		if v.Type().Elem().Kind() == reflect.Uint8 || v.Len() < 2 {
+			continue
+		}
+		tmp := reflect.New(v.Type().Elem()).Elem()
+		for i, j := 0, v.Len()-1; i < j; i, j = i+1, j-1 {
+			tmp.Set(v.Index(i))
+			v.Index(i).Set(v.Index(j))
+			v.Index(j).Set(tmp)
+		}
+		changed = true
+	}
+	return
+}
+
+// EmptyCap makes slices empty but keeps their capacity (s = s[:0]): the slices of scalars
+// and strings, and with containers also the slices of options / parameters / prefixes.
+// keep (optional) is asked after each change whether to keep it.
+func EmptyCap(rr dns.RR, containers bool, keep func() bool) (changed bool) {
+	for _, c := range sliceCells(rr) {
+		v := c.V
+		if !containers && !scalarKind(v.Type().Elem().Kind()) {
+			continue
+		}
+		old := reflect.New(v.Type()).Elem()
+		old.Set(v)
+		v.Set(v.Slice(0, 0))
+		if keep != nil && !keep() {
+			v.Set(old)
+			continue
+		}
+		changed = true
+	}
+	return
+}
+
+func roundTrips(rr dns.RR) bool {
+	b := make([]byte, dns.Len(rr)+64)
+	off, err := dns.PackRR(rr, b, 0, nil, false)
+	if err != nil {
+		return false
+	}
+	_, off2, err := dns.UnpackRR(b[:off], 0)
+	return err == nil && off2 == off
+}
+
+// Variant is a kind derived from a fully populated one.
+type Variant struct {
+	Kind
+	// BuildWire builds the instance whose packing is the wire input for Unpack (nil: the
+	// instance itself; for the empty-with-capacity variants: as many slices emptied as the
+	// record tolerates while still packing and unpacking, so that zero-length fields are
+	// followed by more octets)
+	BuildWire func() dns.RR
+}
+
+// Variants returns the kind itself and its variants: #lc (lower-case owner), #unsorted,
+// #emptycap (leaf slices len 0 / cap > 0), #emptyall (container slices too).
+func Variants(k Kind) []Variant {
+	vs := []Variant{{Kind: k}}
+	add := func(suffix string, f func(dns.RR) bool, wire func() dns.RR) {
+		if !f(k.Build()) {
+			return
+		}
+		vs = append(vs, Variant{Kind: Kind{Name: k.Name + suffix, Type: k.Type, Build: func() dns.RR {
+			rr := k.Build()
+			f(rr)
+			return rr
+		}}, BuildWire: wire})
+	}
+	add("#lc", func(rr dns.RR) bool { LowerOwner(rr); return true }, nil)
+	add("#unsorted", Unsort, nil)
+	greedy := func(containers bool) func() dns.RR {
+		return func() dns.RR {
+			rr := k.Build()
+			EmptyCap(rr, containers, func() bool { return roundTrips(rr) })
+			return rr
+		}
+	}
+	add("#emptycap", func(rr dns.RR) bool { return EmptyCap(rr, false, nil) }, greedy(false))
+	add("#emptyall", func(rr dns.RR) bool {
+		has := false
+		for _, c := range sliceCells(rr) {
+			if !scalarKind(c.V.Type().Elem().Kind()) {
+				has = true
+			}
+		}
+		return has && EmptyCap(rr, true, nil)
+	}, greedy(true))
+	return vs
+}
